@@ -78,6 +78,9 @@ def Prim.span : Prim → Span
 def MOp.span : MOp → Span
   | .access sp .. => sp | .call sp _ => sp | .index sp _ => sp
 
+def Pat.span : Pat → Span
+  | .cmp sp .. => sp | .type sp .. => sp | .any sp => sp
+
 /-- Level of a node in the grammar. -/
 def Ast.level : Ast → Nat
   | .tern .. | .match_ .. => 0
